@@ -277,7 +277,8 @@ def eval_case(state, arg):
     if spec.extra_corr and state["model"] is not None and res["corr"] is None:
         res["corr"] = spec.extra_corr(state["model"], data, case0[3])
     ctx = {"pkg": pkg, "data": data, "per": {k: Obs(v[0]) for k, v in per.items()},
-           "features": feats, "payloads": payloads, "stream": stream}
+           "features": feats, "payloads": payloads, "stream": stream,
+           "raw": {k: v[0] for k, v in per.items()}}
     res["exc"] = sum(1 for o in ctx["per"].values() if o.any_exc())
     if spec.oracle:
         try:
